@@ -90,6 +90,33 @@ ExactlyOnce == TwoRuns =>
 \* byte identity of two exports of the same workspace
 Reproducible == TwoRuns => run1 = run2
 
+\* ---- types declared in a library root AND in the main workspace (strengthened after seeded review) -----
+\* A class / enum / alias may be (partially) declared in the library file and re-opened in a main file.  The
+\* type index keeps ONE declaration per name whose location list grows in LOAD order; the loader analyses
+\* library roots before the main workspace ("lib-first", the only order the command line can produce), the
+\* opposite order ("main-first") is what an incremental re-analysis of the library file would give.  The
+\* property does not depend on that order: a type is listed iff SOME location is a main file -- exactly once.
+\* `ListedByFirst` is the tempting wrong rule ("a type is documented by the workspace that defines it").
+LoadOrders == {"lib-first", "main-first"}
+MainSeq == <<"a", "b", "c">>
+FileSeq(ord) == IF ord = "lib-first" THEN <<"l">> \o MainSeq ELSE MainSeq \o <<"l">>
+AllDecls(w) == MainDecls(w) \cup {Decl(s) : s \in w["l"]}
+\* location list of entity d: the files declaring it, in load order
+Locs(w, d, ord) == SelectSeq(FileSeq(ord), LAMBDA f : \E s \in w[f] : Decl(s) = d)
+ListedByAny(w, d, ord) == \E i \in DOMAIN Locs(w, d, ord) : Locs(w, d, ord)[i] \in MainFiles
+ListedByFirst(w, d, ord) == Locs(w, d, ord) # <<>> /\ Locs(w, d, ord)[1] \in MainFiles
+TypeDecls(w) == {d \in AllDecls(w) : d[1] = "types"}
+\* types declared both in the library root and in the main workspace
+SharedTypes(w) == {d \in TypeDecls(w) : d \in MainDecls(w) /\ \E s \in w["l"] : Decl(s) = d}
+\* invariant: the any-location rule is the reference, whatever the load order
+AnyLocIsReference == \A ord \in LoadOrders : \A d \in TypeDecls(ws) :
+                        ListedByAny(ws, d, ord) <=> d \in Expected(ws, "types")
+\* NOT an invariant (vacuity guard, cfg DocExport_firstloc must violate it): the first-location rule
+FirstLocIsReference == \A ord \in LoadOrders : \A d \in TypeDecls(ws) :
+                        ListedByFirst(ws, d, ord) <=> d \in Expected(ws, "types")
+\* what a first-location exporter would lose, per load order (labels the cases the driver must replay)
+LostByFirstLoc(w, ord) == {d \in Expected(w, "types") : ~ListedByFirst(w, d, ord)}
+
 \* ---- case emission (TwoRuns = FALSE) ----------------------------------------------------------------
 AsSeq(S) == Canon(S)
 SplitClass(w) == Cardinality({f \in MainFiles : "CF" \in w[f]}) >= 2
@@ -101,6 +128,8 @@ Emit == TwoRuns \/ PrintT(<<"CASE", ToJson([
            globals |-> AsSeq({d[3] : d \in Expected(ws, "globals")}),
            modules |-> AsSeq({d[3] : d \in Expected(ws, "modules")}),
            libonly |-> AsSeq({d[3] : d \in LibOnlyDecls(ws)}),
+           shared |-> AsSeq({<<d[2], d[3]>> : d \in SharedTypes(ws)}),
+           lost_if_first_loc |-> [ord \in LoadOrders |-> AsSeq({<<d[2], d[3]>> : d \in LostByFirstLoc(ws, ord)})],
            split |-> SplitClass(ws),
            multiglobal |-> AsSeq(MultiFileGlobals(ws))])>>)
 =============================================================================
